@@ -12,7 +12,7 @@ from symx import core
 from vf import machine as MC
 from vf.unit import eq, holds
 
-FAMILIES = ['isa_dp', 'isa_ls', 'isa_ls_wb', 'isa_ls_hd', 'isa_br', 'isa_sys', 'isa_simd', 'isa_sat']
+FAMILIES = ['isa_dp', 'isa_ls', 'isa_ls_wb', 'isa_ls_hd', 'isa_br', 'isa_sys', 'isa_simd', 'isa_sat', 'isa_mul']
 _loaded = set()
 
 
@@ -34,7 +34,7 @@ def load_tables(mods=None):
 
 def mk_step(enc, arch=6, sec=True, virt=False, vmsa=False, mode=None, it='any', e_sym=False, sym_sys=None,
             set_sys=None, tables=None, expect_class=True, extra_assume=None, fix=None, failed_cond=False,
-            havoc_scratch=False, foreign_config=None):
+            havoc_scratch=False, foreign_config=None, reg_values=None):
     """unit: all fields of the encoding, all registers/flags/mode symbolic"""
     cache = {}
     from vf import known
@@ -48,7 +48,7 @@ def mk_step(enc, arch=6, sec=True, virt=False, vmsa=False, mode=None, it='any', 
 
         def build():
             m = MC.Machine(env, cfg, ov, thumb=E.thumb, mode=mode, it=(it if E.thumb else 'none'), e_sym=e_sym,
-                           sym_sys=sym_sys or {}, set_sys=set_sys or {})
+                           sym_sys=sym_sys or {}, set_sys=set_sys or {}, reg_values=reg_values)
             fixed = fix or {}
 
             def mkvar(name, w):
